@@ -355,3 +355,16 @@ def run(ctx):
     from .c02 import r3 as sign_sensitivity
     sign_sensitivity(ctx, rule="C10.R5")
     r7(ctx)
+    # the facts X.691 requires of each PackedWrite / PackedRead primitive (thresholds, field widths, the reader's offset check)
+    # are facts about the primitives of this property as well (shared with C02.R1 / R2)
+    import json
+    import os
+    from .. import rules as R_
+    from ..core import VERIF as V_
+    ctx.rule("C10.R8", "(C02.R1 as a rule of C10) T3-b standards table: every X.691 threshold / constant / check of tables/x691.json is "
+                       "present, exactly, in the PackedWrite / PackedRead primitive it is anchored in")
+    ctx.rule("C10.R9", "(C02.R2 as a rule of C10) T3-c near miss: no fact of the same shape lies within +-2 of a table value without being equal")
+    with open(os.path.join(V_, "tables", "x691.json")) as fh:
+        table = json.load(fh)
+    n = R_.check_table(ctx, "C10.R8", "C10.R9", table)
+    ctx.floor("C10.R8", n, "C10.R8.entries")
